@@ -31,7 +31,7 @@ STD_MODELS = [
     "<Range<u64> as Iterator>::rev", "<Rev<Range<u64>> as IntoIterator>::into_iter",
     "<Rev<Range<u64>> as Iterator>::next", "core::num::<impl u64>::leading_zeros",
     "core::slice::<impl [u64]>::is_empty", "<[u64; N] as Index<Range<usize>>>::index",
-    "Arguments::from_str", "panic_fmt",
+    "Arguments::from_str", "panic_fmt", "<u32 as Into<u64>>::into",
 ]
 
 
@@ -540,6 +540,15 @@ class Executor:
             nr = Rec("Range", {"start": rng.fields["start"], "end": z3.If(has, rng.fields["end"] - 1, rng.fields["end"])})
             self._store_ref(r, Rec("Rev", {"iter": nr}))
             return Rec("Option", {"disc": z3.If(has, z3.BitVecVal(1, 64), z3.BitVecVal(0, 64)), "0": val}), F, F
+        m = re.match(r"<(u8|u16|u32|u64|usize) as (convert::)?(Into|From)<(u8|u16|u32|u64|usize)>>::(into|from)", c)
+        if m:
+            note("<uN as Into<uM>>::into")
+            dst = m.group(4) if m.group(3) == "Into" else m.group(1)
+            a = argv[0]
+            w = WIDTH[dst]
+            if a.size() > w:
+                raise Unsupported("narrowing Into")
+            return (z3.ZeroExt(w - a.size(), a) if a.size() < w else a), F, F
         m = re.match(r"num::<impl (u64|u32|usize)>::leading_zeros", c)
         if m:
             note("leading_zeros")
